@@ -43,6 +43,8 @@ type Contract struct {
 	External bool   // from /verif/external
 	NoPanic  bool   // generate #nopanic obligations
 	MayPanic string // documented panics are allowed (reason)
+	ErrsUnless string // optional escape of errsfromcallees: `errsfromcallees unless <expr>` (own, specified failure modes)
+	ErrsFromCallees bool // clause `errsfromcallees`: a returned error is nil or an error returned by a callee on that path (no new failure modes)
 	RegionMerge bool // merge the paths of acyclic single-entry regions at their post-dominator (region.go)
 	NoMerge  bool   // do not if-convert conditional blocks (keeps quantified proofs in their path-split shape)
 	Pure     bool   // callee does not modify any heap component
@@ -300,6 +302,11 @@ func (cs *ContractSet) ParseFile(path string, pkg string, external bool) error {
 			continue
 		case body == "pure":
 			cur.Pure = true
+			last = nil
+			continue
+		case body == "errsfromcallees" || strings.HasPrefix(body, "errsfromcallees unless "):
+			cur.ErrsFromCallees = true
+			cur.ErrsUnless = strings.TrimSpace(strings.TrimPrefix(strings.TrimPrefix(body, "errsfromcallees"), " unless"))
 			last = nil
 			continue
 		case strings.HasPrefix(body, "maypanic"):
